@@ -49,6 +49,7 @@ type c10Stats struct {
 	Violations        []c10Violation    `json:"violations"`
 	Samples           []json.RawMessage `json:"samples"`
 	CanonDigest       map[string]uint64 `json:"canon_digest"`
+	OverBudgetSessions []uint64         `json:"over_budget_sessions"`
 }
 
 type digestEntry struct {
@@ -60,6 +61,7 @@ type digestEntry struct {
 }
 
 type digestFile struct {
+	Hung         bool                    `json:"hung"`
 	Instrumented bool                    `json:"instrumented"`
 	Entries      map[string]*digestEntry `json:"entries"`
 }
@@ -219,11 +221,21 @@ func checkC10(o options) int {
 		isoBad = append(isoBad, ir.Mismatches...)
 	}
 
+	// sessions with an operation that exceeded the yield budget: the
+	// uninstrumented children cannot count yields and skip them
+	skipFile := filepath.Join(scratch, "c10-skip-sessions.json")
+	skipList := canon[0].OverBudgetSessions
+	if skipList == nil {
+		skipList = []uint64{}
+	}
+	writeJSONFile(skipFile, skipList)
+
 	// phase 3: pristine (uninstrumented) build under the real runtime order
 	pres := runProcs(pristProcs, func(i int) (string, []string, []string, string) {
 		of := filepath.Join(scratch, fmt.Sprintf("c10-prist%d.json", i))
-		return prist.bin, []string{"c10-digest", "--seed", fmt.Sprint(o.seed), "--worker", "0", "--sessions", fmt.Sprint(canonSessions), "--reps", fmt.Sprint(pristReps), "--out", of, "--sources", o.sources}, nil, of
+		return prist.bin, []string{"c10-digest", "--seed", fmt.Sprint(o.seed), "--worker", "0", "--sessions", fmt.Sprint(canonSessions), "--reps", fmt.Sprint(pristReps), "--out", of, "--sources", o.sources, "--skip-sessions", skipFile}, nil, of
 	})
+	pristHung := 0
 	pristAll := map[string]*digestEntry{}
 	for _, r := range pres {
 		if r.err != nil {
@@ -235,6 +247,9 @@ func checkC10(o options) int {
 		}
 		if df.Instrumented {
 			die(2, "pristine build turned out to be instrumented")
+		}
+		if df.Hung {
+			pristHung++
 		}
 		for k, e := range df.Entries {
 			p := pristAll[k]
@@ -461,6 +476,8 @@ func checkC10(o options) int {
 	cov["isolated_process_keys_compared"] = isoCompared
 	cov["isolated_process_mismatches"] = len(isoBad)
 	cov["pristine_children"] = pristProcs
+	cov["pristine_children_stopped_by_wall_clock_backstop"] = pristHung
+	cov["sessions_skipped_in_pristine_children_yield_budget"] = len(skipList)
 	cov["pristine_keys"] = len(pristAll)
 	cov["pristine_keys_with_several_results"] = realMulti
 	cov["translation_keys_checked"] = translationChecked
